@@ -1508,6 +1508,49 @@ impl<'g> Cx<'g> {
     }
 
     pub fn match_doc(&mut self, m: &syn::ExprMatch, tail: &Tail, stmts: &mut Vec<Stmt>) -> R<(Doc, Ty)> {
+        // `match map.get_mut(&k) { Some(x) => A, None => B }`: as `if let Some(x) = map.get_mut(&k) { A } else { B }`
+        // (`x` is an alias of the entry)
+        if let syn::Expr::MethodCall(gm) = &*m.expr {
+            if gm.method == "get_mut" && gm.args.len() == 1 && m.arms.len() == 2 && m.arms.iter().all(|a| a.guard.is_none()) {
+                let some_arm = m.arms.iter().find(|a| match &a.pat {
+                    syn::Pat::TupleStruct(ts) => ts.path.is_ident("Some") && ts.elems.len() == 1 && matches!(&ts.elems[0], syn::Pat::Ident(pi) if pi.subpat.is_none()),
+                    _ => false,
+                });
+                let none_arm = m.arms.iter().find(|a| match &a.pat {
+                    syn::Pat::Ident(pi) => pi.ident == "None" && pi.subpat.is_none(),
+                    syn::Pat::Path(pp) => pp.path.is_ident("None"),
+                    syn::Pat::Wild(_) => true,
+                    _ => false,
+                });
+                if let (Some(sa), Some(na)) = (some_arm, none_arm) {
+                    let name = match &sa.pat {
+                        syn::Pat::TupleStruct(ts) => match &ts.elems[0] {
+                            syn::Pat::Ident(pi) => pi.ident.to_string(),
+                            _ => unreachable!(),
+                        },
+                        _ => unreachable!(),
+                    };
+                    self.check_local_name(&name, sa.pat.span())?;
+                    let base = self.place(&gm.receiver, stmts)?;
+                    let (kt, vt) = match base.ty() {
+                        Ty::Map(k, v, _) => (*k, *v),
+                        _ => return self.bail(gm.receiver.span(), "`get_mut` on a value that is not a map"),
+                    };
+                    let (k, _) = self.expr(&gm.args[0], Some(&kt), stmts)?;
+                    let cur = self.read(&base, stmts)?;
+                    let site = self.site(&*m.expr);
+                    self.pending_aliases.push((name.clone(), Place::MapEntry(Box::new(base), k.clone(), vt.clone(), site)));
+                    let (dt, tt, div_t) = self.arm_doc(&sa.body, tail, &[(name, vt)])?;
+                    let tail_e = match (tail, div_t) {
+                        (Tail::Value(None), false) => Tail::Value(Some(tt.clone())),
+                        _ => tail.clone(),
+                    };
+                    let (de, te, _) = self.arm_doc(&na.body, &tail_e, &[])?;
+                    let ty = if div_t { te } else { tt };
+                    return Ok((Doc::If(format!("RustSem.Map.contains_key {} {}", cur, k), Box::new(dt), Box::new(de)), ty));
+                }
+            }
+        }
         let (scrut, st, base) = self.scrutinee(&m.expr, stmts)?;
         // an integer `match` with constants as patterns: an `if` chain (Lean cannot match on a `def`)
         if st.is_int() && m.arms.iter().any(|a| self.is_const_pat(&a.pat)) {
@@ -1722,13 +1765,14 @@ impl<'g> Cx<'g> {
         let (et, map_kv) = match pl.ty() {
             Ty::List(e, _) if !values_only => (*e, None),
             Ty::Map(k, v, false) => (Ty::Tuple(vec![(*k).clone(), (*v).clone()]), Some((*k, *v))),
-            Ty::Map(k, v, true) if values_only => {
+            // a `HashMap`: `values_mut()` / `iter_mut()` only under the manifest whitelist (and the check below)
+            Ty::Map(k, v, true) if limit.is_none() && !enumerated => {
                 let rt = self.src(recv.span(), String::new());
                 let ok = crate::manifest::HASHMAP_VALUES_MUT_OK.iter().any(|(fl, d, r, _)| *fl == self.file && *d == self.fn_disp && *r == rt);
                 if !ok {
                     return self.bail(
                         recv.span(),
-                        "`values_mut()` on a `HashMap` without a manifest entry (HASHMAP_VALUES_MUT_OK: the rounds must be independent)",
+                        "`values_mut()` / `iter_mut()` on a `HashMap` without a manifest entry (HASHMAP_VALUES_MUT_OK: the rounds must be independent)",
                     );
                 }
                 hash_checked = true;
@@ -1797,10 +1841,10 @@ impl<'g> Cx<'g> {
         }
         bound.dedup();
         let mut m = self.assigned_in_block(&f.body, &bound);
-        if hash_checked && (!m.is_empty() || exit || super::analysis::block_leaves_fn(&f.body)) {
+        if hash_checked && (!m.is_empty() || super::analysis::loop_has_own_break(&f.body) || super::analysis::block_leaves_fn(&f.body)) {
             return self.bail(
                 f.body.span(),
-                "a whitelisted `HashMap::values_mut()` loop must only touch its own value (no other assignment, no `break` / `continue` / `return` / `?`)",
+                "a whitelisted `HashMap` `values_mut()` / `iter_mut()` loop must only touch its own value (no other assignment, no `break` / `return` / `?` / labelled jump)",
             );
         }
         let root = pl.root();
